@@ -102,6 +102,16 @@ def deep_text(crate, e):
                 if c is not None:
                     out.append(str(c.hir))
                     stack.append(c.hir)
+            elif nd.get('k') == 'call':
+                # a function that did not exist on the reference tree is part of the expression that calls it
+                from ..ir import ref_fns
+                known = ref_fns().get(crate.name)
+                cp = callee(nd)
+                g = getattr(crate, 'fns', {}).get(cp)
+                if known is not None and g is not None and cp not in known and cp not in seen and g.kind != 'Closure':
+                    seen.add(cp)
+                    out.append(str(g.hir))
+                    stack.append(g.hir)
     return ' '.join(out)
 
 
